@@ -122,16 +122,50 @@ def run(ctx):
     st = prog.fn(CO + "SchedulerCoordinator::super_tick_inner")
     # ---- R1a  the rollback checkpoint is a PRE-pass image: nothing is captured into it once a head of the pass may have committed
     RC = CO + "RuntimeCheckpoint"
+    PCK = "warp_core::provenance_store::ProvenanceCheckpoint"
     prog.adt(RC)
+    prog.adt(PCK)
     capt = set()
     for f in prog.fns.values():
-        if f.crate == "warp_core" and f.id.startswith(CO) and not f.is_closure() and "::tests::" not in f.id:
+        if f.crate == "warp_core" and f.id.startswith((CO, "warp_core::provenance_store::")) and not f.is_closure() and "::tests::" not in f.id:
             raw = f.rec.get("_raw")
-            if raw is not None and "RuntimeCheckpoint" not in raw:
+            if raw is not None and "RuntimeCheckpoint" not in raw and "ProvenanceCheckpoint" not in raw:
                 continue
-            if agg_blocks(f, RC) or mod_set([f], RC):
-                capt.add(f.id)
+            for adt_ in (RC, PCK):
+                if agg_blocks(f, adt_) or (mod_set([f], adt_) and not f.name.startswith("restore")):
+                    capt.add(f.id)
+    # wrappers that merely forward to a capturer capture too
+    changed_ = True
+    while changed_:
+        changed_ = False
+        for f in prog.fns.values():
+            if f.crate == "warp_core" and f.id.startswith((CO, "warp_core::provenance_store::")) and f.id not in capt and not f.is_closure() and "::tests::" not in f.id:
+                raw = f.rec.get("_raw")
+                if raw is not None and "Checkpoint" not in raw:
+                    continue
+                if any((f.callee_of(t) or "") in capt for bi, t in f.calls()) and any("Checkpoint" in ty for ty in fn_param_tys(f) + [fn_ret_ty(f)]):
+                    capt.add(f.id)
+                    changed_ = True
     cap_sites = [bi for bi, t in st.calls() if (st.callee_of(t) or "") in capt and not st.blocks[bi]["cl"]]
+    # a capture performed inside a closure that the pass runs per head happens at that call
+    for bi, t in st.calls():
+        if st.blocks[bi]["cl"] or bi in cap_sites:
+            continue
+        for a in t["args"]:
+            for at in st.origins().of_operand(a, deep=False):
+                roots_ = []
+                if at.kind == "agg" and at.key[0] in prog.fns:
+                    roots_.append(at.key[0])
+                elif at.kind == "agg" and len(at.key) == 4:
+                    rv_ = st.blocks[at.key[2]]["st"][at.key[3]][2]
+                    for o_ in rv_.get("os", []):
+                        for at2 in st.origins().of_operand(o_, deep=False):
+                            if at2.kind == "agg" and at2.key[0] in prog.fns:
+                                roots_.append(at2.key[0])
+                for r_ in roots_:
+                    c_ = prog.fns[r_]
+                    if any((g.callee_of(t2) or "") in capt for g in [c_] + [prog.fns[x] for x in prog.closures_in(c_.id)] for b2, t2 in g.calls()):
+                        cap_sites.append(bi)
     commit_sites = []
     for bi, t in st.calls():
         if st.blocks[bi]["cl"]:
